@@ -213,7 +213,7 @@ func vpCeilLog2(n int) int {
 // must preserve every position.
 func VP_C12_withdata_biome() {
 	const L = 64
-	npal := []int{1, 2, 3, 4, 5, 8}[vp.Choice(6)]
+	npal := []int{1, 2, 3, 4, 5, 8, 9, 16, 17}[vp.Choice(9)]
 	bits := vpCeilLog2(npal)
 	pat := make([]BiomesState, npal)
 	for i := range pat {
@@ -258,9 +258,11 @@ func VP_C12_withdata_biome() {
 }
 
 func VP_C12_withdata_state() {
-	cfg := vp.Choice(5)
-	L := []int{16, 16, 64, 64, 64}[cfg]
-	npal := []int{1, 16, 17, 32, 33}[cfg]
+	// the saved form always indexes the section's own palette, however large
+	// (vanilla PalettedContainer.unpack): 257 and 300 entries use 9-bit indices
+	cfg := vp.Choice(7)
+	L := []int{16, 16, 64, 64, 64, 512, 512}[cfg]
+	npal := []int{1, 16, 17, 32, 33, 257, 300}[cfg]
 	bits := vpCeilLog2(npal)
 	if bits > 0 && bits < 4 {
 		bits = 4
@@ -270,9 +272,19 @@ func VP_C12_withdata_state() {
 	}
 	pat := make([]BlocksState, npal)
 	for i := range pat {
+		if npal > 33 && i != 0 && i != npal-1 {
+			// large palettes: concrete distinct ids except the first and last entry
+			pat[i] = BlocksState(1000 + 5*i)
+			continue
+		}
 		pat[i] = vpStateID()
+		if npal > 33 {
+			vp.Assume(pat[i] < 1000 || pat[i] > BlocksState(1000+5*npal))
+		}
 		for k := 0; k < i; k++ {
-			vp.Assume(pat[k] != pat[i])
+			if npal <= 33 || k == 0 {
+				vp.Assume(pat[k] != pat[i])
+			}
 		}
 	}
 	var data []uint64
@@ -286,6 +298,27 @@ func VP_C12_withdata_state() {
 		}
 	}
 	c := NewStatesPaletteContainerWithData(L, data, pat)
+	if npal > 33 {
+		// large: every position checked at its concrete index (no symbolic
+		// index into 512 positions), the later Set at boundary positions
+		for i := 0; i < L; i++ {
+			vp.Assert(c.Get(i) == pat[idx[i]], "saved data read as palette[unpack(data,i)]")
+		}
+		vp.Cover("read")
+		nv := vpStateID()
+		vp.Assume(nv != pat[0] && nv != pat[npal-1] && (nv < 1000 || nv > BlocksState(1000+5*npal)))
+		at := []int{0, 1, 255, L - 1}[vp.Choice(4)]
+		c.Set(at, nv)
+		for i := 0; i < L; i++ {
+			if i == at {
+				vp.Assert(c.Get(i) == nv, "new value stored")
+			} else {
+				vp.Assert(c.Get(i) == pat[idx[i]], "other positions preserved across the upgrade")
+			}
+		}
+		vp.Cover("end")
+		return
+	}
 	j := vpIndex(L)
 	var want BlocksState
 	for i := 0; i < L; i++ {
